@@ -3930,7 +3930,7 @@ class Shape(SVGElement, GraphicObject, Transformable):
         bbs = [
             seg.bbox()
             for seg in self.segments(transformed=transformed)
-            if not isinstance(Close, Move)
+            if not isinstance(seg, Move)
         ]
 
         try:
@@ -7912,7 +7912,7 @@ class Subpath:
             return Path(self).bbox(transformed=transformed, with_stroke=with_stroke)
 
         segments = self._path._segments[self._start : self._end + 1]
-        bbs = [seg.bbox() for seg in segments if not isinstance(Close, Move)]
+        bbs = [seg.bbox() for seg in segments if not isinstance(seg, Move)]
         try:
             xmins, ymins, xmaxs, ymaxs = list(zip(*bbs))
         except ValueError:
